@@ -88,6 +88,8 @@ class World:
         self.rand_counter = 0
         self.on_connect = None          # optional callback(sock) deciding the outcome
         self.probe = None               # optional callable sampled when a socket is created (e.g. "is the node stopping?")
+        self._tnow = None
+        self._tcalls = 0
         WORLD = self
 
     # ------------------------------------------------------------------ threads
@@ -415,7 +417,14 @@ class QueueShim:
 
 class TimeShim:
     def time(self):
-        return _W().now
+        # the clock has 1 s resolution for every decision the node takes (it truncates with int());
+        # a deterministic sub-second drift keeps measured durations non-zero, as on a real clock
+        w = _W()
+        if w._tnow != w.now:
+            w._tnow = w.now
+            w._tcalls = 0
+        w._tcalls = min(w._tcalls + 1, 900_000)
+        return w.now + w._tcalls * 1e-6
 
     def sleep(self, s):
         _W().block(lambda: False, s)
